@@ -5,7 +5,7 @@ import ast
 import itertools
 
 from ..core import Run, AnalysisError, dotted, norm
-from ..alg import T, num, var, op, normalize, substitute, Rat, C, same
+from ..alg import T, num, var, op, normalize, substitute, Rat, C, same, same_terms, eval_term
 from ..vecreader import VecReader
 from ..dim import World
 from ..flow import Fn, node_calls, kw
@@ -94,6 +94,7 @@ def _read_tables(run: Run, modname: str, info: dict, vectors: bool) -> dict:
         env = {}
         basis = [[num(1), num(0), num(0)], [num(0), num(1), num(0)], [num(0), num(0), num(1)]]
         rd = VecReader(env, where=f"{fn.name}[{NAMES[ot]}->{NAMES[nt]}]")
+        rd.helpers = {s.name: s for s in m.tree.body if isinstance(s, ast.FunctionDef) and not s.decorator_list}
 
         def special(r, n, ot=ot, nt=nt, old_p=old_p, new_p=new_p):
             d = dotted(n) if isinstance(n, ast.Attribute) else None
@@ -157,6 +158,52 @@ def _read_tables(run: Run, modname: str, info: dict, vectors: bool) -> dict:
     return out
 
 
+def _under_trig(t, name: str, inside: bool = False) -> bool:
+    if isinstance(t, int):
+        return False
+    if t.op == "var":
+        return inside and t.val == name
+    return any(_under_trig(x, name, inside or t.op in ("sin", "cos", "tan")) for x in t.args)
+
+
+def _grid(tag: str) -> list:
+    """points of a system's domain covering every sign pattern and the coordinate planes; the z axis, the origin and the
+    half-plane where the azimuth jumps (y = 0, x < 0) are left out: conversions are not continuous (or not defined) there"""
+    import math
+    pts = []
+    if tag == "C":
+        for x in (-1.3, 0.0, 0.7):
+            for y in (-0.9, 0.0, 1.1):
+                for z in (-1.7, 0.0, 0.6):
+                    if (x == 0 and y == 0) or (y == 0 and x < 0):
+                        continue
+                    pts.append({"C0": x, "C1": y, "C2": z})
+    elif tag == "Y":
+        for phi in (-2.5, -math.pi / 2, -1.0, 0.0, 0.6, math.pi / 2, 2.0, 3.0):
+            for z in (-1.1, 0.0, 0.8):
+                pts.append({"Y0": 0.9, "Y1": phi, "Y2": z})
+    else:
+        for theta in (0.4, math.pi / 2, 2.4):
+            for phi in (-2.5, -math.pi / 2, -1.0, 0.0, 0.6, math.pi / 2, 2.0, 3.0):
+                pts.append({"S0": 1.7, "S1": theta, "S2": phi})
+    return pts
+
+
+def _grid_mismatch(lhs, rhs, tag: str):
+    """first grid point of system `tag` at which the two terms differ: (point, left, right); None when they agree wherever
+    both are defined. Evaluation is IEEE double arithmetic on the terms read from the source - a difference above 1e-9 at a
+    point of the domain is a definitive counterexample, agreement is only corroboration of the exact comparison."""
+    for pt in _grid(tag):
+        try:
+            va, vb = eval_term(lhs, dict(pt)), eval_term(rhs, dict(pt))
+        except (ValueError, ZeroDivisionError, OverflowError):
+            continue
+        if abs(va - vb) > 1e-9 * max(1.0, abs(va), abs(vb)):
+            names = {"C": "xyz", "Y": ("rho", "phi", "z"), "S": ("r", "theta", "phi")}[tag]
+            return ({names[int(k[1])]: round(v, 6) for k, v in pt.items()}, va, vb)
+    return None
+
+
 def _subst_env(tag: str, terms: list) -> dict:
     return {f"{tag}{k}": terms[k] for k in range(3)}
 
@@ -167,6 +214,8 @@ def check(run: Run) -> None:
     run.rule("X3", "Lame coefficients squared equal the squared lengths of the position derivatives")
     run.rule("X4", "convert_point / convert_vector use the tables in the right direction and substitute the new coordinates")
     run.rule("X5", "the fall-through dispatch raises TypeError for unlike coordinate system types")
+    run.rule("X6", "angles stay on one branch: a direct scalar conversion equals the conversion via the third system, and A -> B -> A is the identity, "
+             "entry by entry (exact modulo 2 pi; the branch itself on a grid covering every sign pattern and the coordinate planes)")
     info = _properties(run)
     S = _read_tables(run, SC, info, vectors=False)
     M = _read_tables(run, VC, info, vectors=True)
@@ -177,7 +226,20 @@ def check(run: Run) -> None:
     smod, vmod = run.src.need(SC), run.src.need(VC)
     # position maps: Cartesian scalars as functions of A's scalars = table (C -> A)
     P = {"C": [sv("C", k) for k in range(3)], "Y": S[("C", "Y")][0], "S": S[("C", "S")][0]}
-    # ---- X1
+    # ---- X1 (grid first: a definite counterexample is reported even where the exact comparison must refuse)
+    # the identity evaluated on a grid that contains the coordinate planes (conditions such as Eq(x, 0) are only taken there)
+    for a, b in pairs:
+        if a == "C":
+            continue
+        comp = [substitute(t, _subst_env(a, S[(a, b)][0])) for t in P[a]]
+        for k in range(3):
+            run.ob("X1", f"grid: P_{a} o ({a} in {b}) = P_{b} [{'xyz'[k]}]")
+            bad = _grid_mismatch(comp[k], P[b][k], b)
+            if bad is not None:
+                run.violate("X1", f"{SC}:{a}->{b}:{'xyz'[k]}", smod, S[(a, b)][1],
+                            f"expressing the {NAMES[a]} scalars in {NAMES[b]} ones moves the point: at {bad[0]} the Cartesian {'xyz'[k]}-coordinate becomes "
+                            f"{bad[1]:.6g} instead of {bad[2]:.6g}", witness=bad[0])
+    # X1 exactly
     for a, b in pairs:
         if a == "C":
             continue
@@ -190,6 +252,30 @@ def check(run: Run) -> None:
                             f"expressing the {NAMES[a]} scalars in {NAMES[b]} ones does not preserve the Cartesian {'xyz'[k]}-coordinate: "
                             f"{lhs!r} instead of {rhs!r}", composed=repr(lhs), expected=repr(rhs))
         run.sample({"pair": f"{NAMES[a]} in {NAMES[b]}", "table": [repr(t) for t in S[(a, b)][0]]})
+    # ---- X6
+    angular = {a: {k for k in range(3) if any(_under_trig(t, f"{a}{k}") for t in P[a])} for a in "CYS"}
+    for a in "CYS":
+        for c in "CYS":
+            if a == c:
+                continue
+            b = next(x for x in "CYS" if x not in (a, c))
+            direct = S[(a, c)][0]
+            via = [substitute(t, _subst_env(b, S[(b, c)][0])) for t in S[(a, b)][0]]
+            back = [substitute(t, _subst_env(c, S[(c, a)][0])) for t in S[(a, c)][0]]  # a's scalars -> c -> a, functions of a's scalars
+            for k in range(3):
+                for what, lhs, rhs, dom in ((f"direct={NAMES[a]}-in-{NAMES[c]} vs via {NAMES[b]}", direct[k], via[k], c),
+                                            (f"round-trip {NAMES[a]}->{NAMES[c]}->{NAMES[a]}", back[k], sv(a, k), a)):
+                    run.ob("X6", f"{what} [{k}]")
+                    if k in angular[a]:
+                        exact = all(same_terms(op(f_, lhs), op(f_, rhs), what) for f_ in ("sin", "cos"))
+                    else:
+                        exact = same_terms(lhs, rhs, what)
+                    bad = None if not exact else _grid_mismatch(lhs, rhs, dom)
+                    if not exact or bad is not None:
+                        at = f": at {bad[0]} one gives {bad[1]:.6g}, the other {bad[2]:.6g}" if bad else ""
+                        run.violate("X6", f"{SC}:{a}->{c}:[{k}]:{what.split(' ')[0]}", smod, S[(a, c)][1],
+                                    f"scalar {k} of the {NAMES[a]} system: {what} disagree{at} "
+                                    f"({'a different branch of the angle' if exact else 'not even modulo 2 pi'})", witness=bad[0] if bad else None)
     # ---- X3
     for tag in "CYS":
         h = info["lame"][tag]
